@@ -131,9 +131,9 @@ def programs(shard, seed):
                        "batches": [qs]}
 
 
-def run_case(prog, res=None):
+def run_case(prog, res=None, model=None):
     try:
-        m, Wd = sup.fit_program(prog)
+        m, Wd = sup.fit_program(prog, model=model)
     except Horizon:
         raise
     except Exception as ex:
@@ -187,6 +187,13 @@ def viol(prog, prob, sym):
             "explanation": prob, "fingerprint": "%s.predict: %s" % (prog["model"], sym)}
 
 
+_PREV = {}
+
+
+def _key(prog):
+    return sup.cache_key(prog) if prog["model"] in ("SupervisedOPF", "SemiSupervisedOPF") else None
+
+
 def run(shard, seed):
     res = Result()
     k = 0
@@ -204,11 +211,15 @@ def run(shard, seed):
                         for k_, v_ in prog.items()}, 1)
         k += 1
         if v:
+            prev = _PREV.get(_key(prog))
+            if prev is not None and "previous" not in v["program"]:
+                v["program"] = dict(v["program"], previous=prev)
             res.violations.append(v)
             if res.full:
                 break
+        _PREV[_key(prog)] = prog
     return res
 
 
 def replay(case):
-    return run_case(case["program"])
+    return sup.replay_with_history(run_case, case["program"])
